@@ -476,6 +476,23 @@ def _retyped_without_hint(schema: Type[MetadataSchema], fname: str) -> bool:
     return fld.shape == SHAPE_SINGLETON and parent_fld.shape != SHAPE_SINGLETON
 
 
+def _keeps_field_constraints(fld, parent_fld) -> bool:
+    """Return whether a field has the alias and all constraints of the parent field.
+
+    This concerns what is given by assigning a pydantic `Field(...)`
+    (constraints cannot be compared for compatibility, so they must be the same).
+    """
+    if fld is None or parent_fld is None:
+        return True
+    if fld.alias != parent_fld.alias:
+        return False
+    info, parent_info = fld.field_info, parent_fld.field_info
+    return all(
+        getattr(info, c, None) == getattr(parent_info, c)
+        for c in parent_info.get_constraints()
+    )
+
+
 def detect_field_overrides(schema: Type[MetadataSchema]):
     anns = get_annotations(schema)
     base_hints = cast(Any, schema._base_typehints)
@@ -510,7 +527,13 @@ def check_overrides(schema: Type[MetadataSchema]):
         )
         if retyped := _retyped_without_hint(schema, fname):
             hint = fld.outer_type_  # the type hint is still the inherited one
-        if turned_optional or retyped or not is_subtype(hint, parent_hint):
+        same_constrs = _keeps_field_constraints(fld, parent_fld)
+        if (
+            turned_optional
+            or retyped
+            or not same_constrs
+            or not is_subtype(hint, parent_hint)
+        ):
             parent = infer_parent(schema)
             parent_name = (
                 parent.Fields[fname]._origin_name
